@@ -45,7 +45,8 @@ def apply(dst, edits):
             return 'anchor text not found in %s: %r' % (rel, old[:60])
         if cnt == 1 and s.count(old) != 1:
             return 'anchor text ambiguous in %s (%d): %r' % (rel, s.count(old), old[:60])
-        s = s.replace(old, new) if cnt == 0 else s.replace(old, new, cnt)
+        # cnt: 1 = unique occurrence required, 0 = all occurrences, -1 = first occurrence only
+        s = s.replace(old, new) if cnt == 0 else s.replace(old, new, 1)
         open(p, 'w').write(s)
     return None
 
